@@ -36,6 +36,8 @@ def scale_base(b, fac):
     for k in ('min_take', 'max_take'):
         if b.get(k):
             b[k] = dict(b[k], values=[v * fac for v in b[k]['values']])
+    if b.get('orders'):
+        b['orders'] = dict(b['orders'], capa=[v * fac for v in b['orders']['capa']])
     return b
 
 
@@ -47,7 +49,7 @@ def gen_scaled(rng):
     assets = []; pk = ['qb']
     for i, n in enumerate(nodes):
         assets.append(gen.gen_market(rng, 'mkt%d' % i, n, f, 'p%d' % i, wacc=0.)); pk.append('p%d' % i)
-    kind = gen.pick(rng, ['storage', 'storage', 'simple', 'contract', 'contract', 'transport', 'exttransport', 'multi', 'storage_mip', 'plant'])
+    kind = gen.pick(rng, ['storage', 'storage', 'simple', 'contract', 'contract', 'transport', 'exttransport', 'multi', 'storage_mip', 'plant', 'orderbook'])
     if kind == 'storage':
         b = gen.gen_storage(rng, g, 'base', [nodes[0]] if (nn == 1 or rng.random() < 0.6) else nodes[:2], f, price_key='qb', window=True)
         if b['size'] == 0: b['size'] = 8.
@@ -57,6 +59,9 @@ def gen_scaled(rng):
         b = gen.gen_transport(rng, g, 'base', nodes[0], nodes[1], f, cost_key='qb', window=True, extended=(kind == 'exttransport'))
     elif kind == 'multi' and nn > 1:
         b = gen.gen_multicommodity(rng, g, 'base', nodes[:2], f, 'qb')
+    elif kind == 'orderbook':
+        b = gen.gen_orderbook(rng, g, 'base', nodes[0], n_orders=int(rng.integers(1, 8)), full_exec=False)      # (orders partly outside the horizon: variables without mapping)
+        b.pop('_orders_tz', None)
     elif kind == 'storage_mip':
         b = gen.gen_storage(rng, g, 'base', [nodes[0]], f, window=False, mip=True, inflow=False)
         b['start_level'] = 0.; b['end_level'] = 0.; b['size'] = max(b['size'], 5.)
@@ -84,6 +89,8 @@ def gen_scaled(rng):
     elif (sc['start'] is None) != (b.get('start') is None) or (sc['end'] is None) != (b.get('end') is None):
         # wrapper window = base window, or neither has one
         b['start'] = None; b['end'] = None; sc['start'] = None; sc['end'] = None
+    if kind == 'orderbook':
+        sc['start'] = None; sc['end'] = None; b.pop('start', None); b.pop('end', None)      # (an order book has no lifetime parameters; lifetimes around order books: C08)
     assets.append(sc)
     for j in range(int(rng.integers(0, 2))):
         pk.append('q%d' % j)
